@@ -284,6 +284,10 @@ fn process(pr: &Proj, idx: usize, outdir: &str, opts: &Opts, rng: &mut Rng) -> O
         for (_, (_, e)) in hits.iter() {
             let d = decl_of(e);
             qents.insert(d.id().to_raw(), d);
+            // what the language server searches: AnyEnt::declaration() of the entity under the cursor
+            let d2 = e.declaration();
+            add_ent(&mut ents, d2);
+            qents.insert(d2.id().to_raw(), d2);
         }
     }
     {
@@ -315,7 +319,8 @@ fn process(pr: &Proj, idx: usize, outdir: &str, opts: &Opts, rng: &mut Rng) -> O
     }
     // clause 1
     for ((pf, sp, _), (pos, ent)) in hits.iter() {
-        let d = decl_of(ent);
+        // the implementation's own declaration() (find_declaration), as the property says
+        let d = ent.declaration();
         let refs = &refs_cache[&d.id().to_raw()];
         if !refs.iter().any(|r| r == pos) {
             nv[0] += 1;
@@ -510,6 +515,20 @@ fn process(pr: &Proj, idx: usize, outdir: &str, opts: &Opts, rng: &mut Rng) -> O
             Some((pos, ent)) => {
                 let _ = writeln!(imp, "S {} {}", fmt_span(files.id(pos.source.file_name()), span_of(pos)), ent.id().to_raw());
             }
+        }
+    }
+    {
+        // AnyEnt::declaration() of every entity a cursor resolved to and of every queried entity
+        let mut dq: BTreeMap<usize, usize> = BTreeMap::new();
+        for (_, (_, e)) in hits.iter() {
+            dq.insert(e.id().to_raw(), e.declaration().id().to_raw());
+        }
+        for (id, e) in qents.iter() {
+            dq.insert(*id, e.declaration().id().to_raw());
+        }
+        for (id, d) in dq {
+            let _ = writeln!(cases, "Q D {}", id);
+            let _ = writeln!(imp, "D {}", d);
         }
     }
     for (id, _) in qents.iter() {
